@@ -22,6 +22,11 @@ namespace muscle {
 static uint32 _sessionIDCounter = 0L;
 static uint32 _factoryIDCounter = 0L;
 
+#ifdef MUSCLE_VERIF_HOOKS
+// Lets a deterministic simulator that runs many server lifetimes in one process start each from the same session/factory IDs
+void MuscleVerifSimResetGlobalIDCounters() {_sessionIDCounter = 0; _factoryIDCounter = 0;}
+#endif
+
 static uint32 GetNextGlobalID(uint32 & counter)
 {
    Mutex * ml = GetGlobalMuscleLock();
